@@ -5,6 +5,8 @@ History + reference model: each case is the call pair
 recorded at the public boundary; the oracle compares (n, ch', class of g,
 every argument of g read through the *specification's* argument names) with
 the assignment, by typed deep equality."""
+import decimal
+
 from .. import canon, diff, refcodec, refspec
 from ..gen import frames as gf
 from ..mon import boundary
@@ -82,6 +84,15 @@ def cases(shard, rnd):
                         'long': [2**32, -1, 1.0, '1'],
                         'longlong': [2**63, -2**63 - 1, 1.0, '1'],
                         'table': [[('k', 'v')], (('k', 'v'),),
+                                  {'d': decimal.Decimal(
+                                      '0.1000000000000000000000000000001')},
+                                  {'d': decimal.Decimal(
+                                      '1.0000000000000000000000000000001')},
+                                  {'d': [decimal.Decimal(
+                                      '123.4500000000000000000000000000009')]},
+                                  {'d': decimal.Decimal('1E+9')},
+                                  {'d': decimal.Decimal(2**31)},
+                                  {'f': 2**53 + 1, 'g': [1e400]},
                                   {'k\udce4': 1}, {'k': 'v\udcff'},
                                   {'a': ['\udc80']}, {'n': {'\udcc3\udca9':
                                                             's'}}],
